@@ -362,7 +362,7 @@ impl ExtendedHeader {
 //@end
 
 //@fn impl ExtendedHeader :: validate
-//@props C01
+//@props C01 C16
 //@macro bail_validation => return Err(Error::Validation(ValidationError::Other))
     pub fn validate(&self) -> (res: Result<()>)
         requires eh_inv(*self)
